@@ -3,7 +3,8 @@ package stackage
 // C15 — Transfer copies everything or reports failure, never touches the source.
 
 // p: ns (source length), nd (destination length), variant (0 Stack, 1 alias,
-// 2 pointer to alias, 3 read-only, 4 zero Stack, 5 foreign value, 6 nil)
+// 2 pointer to alias, 3 read-only, 4 zero Stack, 5 foreign value, 6 nil,
+// 7 the source itself, 8 an alias of the source, 9 a pointer to the source)
 func VH_C15(p []int) {
 	ns, nd := p[0], p[1]
 	src := vhArbitraryStack(ns, 0, true, vhOptMask, 2, 2)
@@ -34,6 +35,13 @@ func VH_C15(p []int) {
 		target, usable = "not a stack", false
 	case 6:
 		target, usable = nil, false
+	case 7:
+		// the source cannot stay unchanged and receive its own elements
+		target, usable = src.s, false
+	case 8:
+		target, usable = vhAliasStack(src.s), false
+	case 9:
+		target, usable = &src.s, false
 	}
 	free := -1
 	if dst.cfg.cap != 0 {
